@@ -20,6 +20,33 @@ Definition run_case (i : input3) : obs :=
 Definition is_nil (l : bytes) : bool := match l with [] => true | _ => false end.
 Definition implb' (a c : bool) : bool := negb a || c.
 
+(* the decision clauses of the property, as a function of what was observed:
+   finished_early: the program certainly finished before the request body was read;
+   allowed: the request allows keep-alive and no_keep_alive is off; self_delim / complete: the first
+   response is self-delimiting / a complete response; regular: the reference semantics fixes the response
+   and the handler leaves Connection alone; body_read; closed1: connection closed after the first
+   response; has_close / has_ka: "close" / "keep-alive" among the response's Connection values *)
+Definition decide3 (finished_early allowed self_delim complete regular body_read v11 closed1 has_close has_ka : bool) : bool :=
+  (* a program that finishes inside prepare() of the early handler certainly finishes before the request
+     body was read: the application did not read the whole body, so the connection must not stay open,
+     whenever the response write completes *)
+  implb' finished_early closed1
+  (* stays open only if allowed and self-delimiting *)
+  && implb' (negb closed1) (allowed && self_delim)
+  (* ... and does stay open then (regular responses, body read) *)
+  && implb' (allowed && self_delim && regular && body_read) (negb closed1)
+  (* an HTTP/1.1 client is told when the connection will close *)
+  && implb' (closed1 && v11 && complete && regular) has_close
+  (* no keep-alive acknowledgement on a connection that closes *)
+  && implb' (has_ka && regular) (negb closed1).
+
+Definition finished_early_of (q : req) (p : list op) : bool :=
+  q_early q && existsb (fun o => match o with Finish => true | _ => false end) p.
+Definition regular_of (e : env) (q : req) (p : list op) : bool :=
+  match spec e q p with NoClaim => false | Expect _ _ _ => true end && no_handler_connection p.
+Definition body_read_of (q : req) (p : list op) : bool :=
+  negb (q_early q) || negb (existsb (fun o => match o with Finish => true | _ => false end) p).
+
 (* the property on (first response bytes, closed after it?, bytes answering the second request) *)
 Definition check3 (e : env) (q : req) (p : list op) (w1 : bytes) (closed1 : bool) (w2 : bytes) : bool :=
   let r1 := parse_resp (q_meth q) w1 in
@@ -31,24 +58,8 @@ Definition check3 (e : env) (q : req) (p : list op) (w1 : bytes) (closed1 : bool
                     | POk _ _ d _ rest => negb (delim_eqb d DClose) && is_nil rest
                     | _ => false end in
   let allowed := request_allows q && negb (q_nka q) in
-  (* the response is one whose content the reference semantics fixes (no rejected operation) *)
-  let regular := match spec e q p with NoClaim => false | Expect _ _ _ => true end
-                 && no_handler_connection p in
-  (* the whole request body was read before the response was finished *)
-  let body_read := negb (q_early q) || negb (existsb (fun o => match o with Finish => true | _ => false end) p) in
-  (* a program that finishes inside prepare() of the early handler certainly finishes before the request
-     body was read: the application did not read the whole body, so the connection must not stay open,
-     whenever the response write completes *)
-  let finished_early := q_early q && existsb (fun o => match o with Finish => true | _ => false end) p in
-  (* stays open only if allowed and self-delimiting *)
-  implb' finished_early closed1
-  && implb' (negb closed1) (allowed && self_delim)
-  (* ... and does stay open then (regular responses, body read) *)
-  && implb' (allowed && self_delim && regular && body_read) (negb closed1)
-  (* an HTTP/1.1 client is told when the connection will close *)
-  && implb' (closed1 && is_v11 q && complete && regular) (existsb (beqb (b "close")) conn_vals)
-  (* no keep-alive acknowledgement on a connection that closes *)
-  && implb' (existsb (beqb (b "keep-alive")) conn_vals && regular) (negb closed1)
+  decide3 (finished_early_of q p) allowed self_delim complete (regular_of e q p) (body_read_of q p) (is_v11 q)
+          closed1 (existsb (beqb (b "close")) conn_vals) (existsb (beqb (b "keep-alive")) conn_vals)
   (* the second request is answered exactly when the connection stayed open *)
   && (if closed1 then is_nil w2
       else match parse_resp GET w2 with
